@@ -8,7 +8,8 @@ Validation on the implementation: the harness counts instrumented control-flow e
 + C) with K calibrated on the clean tree with wide head-room, plus a per-case watchdog.  Inputs:
 malformed variants of generated archives of all five formats, the shipped crashers, and
 pathological constructions (CK-less MSZIP input, zero-progress blocks, cyclic CHM links, fake
-signatures every 4 bytes with SEARCHBUF=4)."""
+signatures every 4 bytes with SEARCHBUF=4, cabinet headers with degenerate size/offset fields under strict and
+salvage search, MSZIP stored blocks running past the window)."""
 import os, re
 from lib import common as C, minicab
 from lib.pipeline import Finding
@@ -44,6 +45,34 @@ def pathological(rng):
     out.append(([f"file b.bin {blob.hex()}", "new cab", "param i0 SEARCHBUF 4", "search i0 b.bin", "destroy i0"], dict(family="cab.search-fakes")))
     blob = (b"MSCF" + bytes(4) + b"\xff\xff\x00\x00" + bytes(4) + b"\x10\x00\x00\x00") * 600
     out.append(([f"file b.bin {blob.hex()}", "new cab", "param i0 SEARCHBUF 7", "search i0 b.bin", "destroy i0"], dict(family="cab.search-plausible-fakes")))
+    # search: real cabinet headers whose size / offset fields are degenerate (0, 1, below the files offset, huge),
+    # strict and salvage; the restart offset after a hit is derived from these fields
+    import struct
+    cab, _ = minicab.build([(0, [(b"hello world", 11)])], [dict(name=b"a.bin", length=11, offset=0, folder=0)])
+    for field, off in (("cbCabinet", 8), ("coffFiles", 16)):
+        for val in (0, 1, 35, 36, 0x7fffffff, 0xffffffff):
+            c2 = bytearray(cab); struct.pack_into("<I", c2, off, val)
+            for prefix in (b"", b"junk" * 5):
+                blob = prefix + bytes(c2) + b"tail" * 8 + cab
+                for salv in (0, 1):
+                    out.append(([f"file b.bin {blob.hex()}", "new cab", f"param i0 SALVAGE {salv}", f"param i0 SEARCHBUF {rng.choice([4, 64, 32768])}", "search i0 b.bin", "destroy i0"],
+                                dict(family="cab.search-size-fields", field=field, value=val, salvage=salv)))
+    # MSZIP: stored deflate blocks whose LEN runs past the 32768-byte window, data present
+    def stored(n, data=None):
+        data = bytes(n) if data is None else data
+        return b"\x01" + struct.pack("<HH", n, n ^ 0xFFFF) + data
+    for name, body in (("stored-32768", stored(32768)), ("stored-32769", stored(32769)), ("stored-38000", stored(38000)),
+                       ("stored-40000-short", stored(40000, bytes(100))),
+                       ("two-stored", b"\x00" + struct.pack("<HH", 32700, 32700 ^ 0xFFFF) + bytes(32700) + stored(100))):
+        blk = b"CK" + body
+        cab2, _ = minicab.build([(1, [(blk, 32768)])], [dict(name=b"z.bin", length=32768, offset=0, folder=0)])
+        for salv in (0, 1):
+            out.append(([f"file x.cab {cab2.hex()}", "new cab", f"param i0 SALVAGE {salv}", "open i0 x.cab", "extract i0 h0 0 o", "close i0 h0", "destroy i0"],
+                        dict(family="mszip.stored-overrun", variant=name, salvage=salv)))
+        kw = b"KWAJ\x88\xf0\x27\xd1" + struct.pack("<HHH", 4, 14, 0) + struct.pack("<H", len(blk) & 0xFFFF) + blk
+        if len(blk) <= 0xFFFF:
+            out.append(([f"file f.kwj {kw.hex()}", "new kwaj", "open i0 f.kwj", "extract i0 h0 - o", "close i0 h0", "destroy i0"],
+                        dict(family="mszip.stored-overrun", variant=name, container="kwaj")))
     return out
 
 def chm_cycles(rng):
